@@ -552,7 +552,9 @@ func (fx *fnExec) havocLoop(lp *Loop, st *State, spec *LoopSpec) {
 	var names []string
 	byName := map[string]*ssa.Alloc{}
 	for a := range allocs {
-		n := fmt.Sprintf("%s@%d", a.Comment, a.Pos())
+		// a unique, run-independent key: the hidden `rangeindex` variables of two nested range loops
+		// have the same comment and no position
+		n := allocOrderKey(a)
 		names = append(names, n)
 		byName[n] = a
 	}
